@@ -316,8 +316,10 @@ func c17History(c *Ctx, idx int, seed int64, sp *e2eSpec, dir string) {
 		if !o.w.isVersion(e.Name, e.S) {
 			continue // content seen in the middle of a write: the integrity oracle's business
 		}
-		if !o.w.describesVersion(e.Name, e.S, e.A, e.B) {
-			v("C17", "cache-entry-is-one-version", "cache-entry-mixes-versions", fmt.Sprintf("the sender cached %s with hash %s, size %d and modification time %s (at %s): no version of the file ever had that hash together with that size and time", e.Name, e.S, e.A, time.Unix(0, e.B).UTC().Format(time.RFC3339Nano), e.VT))
+		// (reported when the entry pairs the hash of one registered version with the size and
+		// time of ANOTHER one; a stamp that no registered version ever had is not decided here)
+		if !o.w.describesVersion(e.Name, e.S, e.A, e.B) && o.w.versionWithStamp(e.Name, e.A, e.B) {
+			v("C17", "cache-entry-is-one-version", "cache-entry-mixes-versions", fmt.Sprintf("the sender cached %s with hash %s, size %d and modification time %s (at %s): that hash belongs to one version of the file, that size and time to another", e.Name, e.S, e.A, time.Unix(0, e.B).UTC().Format(time.RFC3339Nano), e.VT))
 			break
 		}
 	}
